@@ -19,6 +19,7 @@ use alpenglow::verif::{FinalizationKind, take_finalization_log};
 use alpenglow::{BlockId, ValidatorIndex};
 use tokio::sync::mpsc;
 
+use crate::kernel;
 use crate::keys;
 use crate::model::{Blk, CK, VK, VoteId};
 use crate::wire;
@@ -230,6 +231,8 @@ pub struct PoolHarness {
     ev_rx: mpsc::Receiver<PoolEvent>,
     rep_rx: mpsc::Receiver<BlockId>,
     rt: tokio::runtime::Runtime,
+    /// every event the pool emitted so far, in order (input of the Votor forwarding probe)
+    pub event_log: Vec<PoolEvent>,
 }
 
 impl PoolHarness {
@@ -241,7 +244,7 @@ impl PoolHarness {
         let pool = PoolImpl::new(vepoch.clone(), ev_tx, rep_tx);
         let rt = tokio::runtime::Builder::new_current_thread().build().expect("rt");
         let _ = take_finalization_log();
-        Self { n: stakes.len(), own, stakes: stakes.to_vec(), epoch, vepoch, pool, ev_rx, rep_rx, rt }
+        Self { n: stakes.len(), own, stakes: stakes.to_vec(), epoch, vepoch, pool, ev_rx, rep_rx, rt, event_log: Vec::new() }
     }
 
     pub fn add_vote(&mut self, id: VoteId) -> Result<(), AddVoteError> {
@@ -270,6 +273,7 @@ impl PoolHarness {
     pub fn drain(&mut self) -> StepOut {
         let mut out = StepOut::default();
         while let Ok(ev) = self.ev_rx.try_recv() {
+            self.event_log.push(ev.clone());
             match ev {
                 PoolEvent::CertCreated(c) => out.certs.push(c),
                 PoolEvent::ParentReady { slot, parent } => out.parent_ready.push((slot.inner(), blk_of(parent.0.inner(), &parent.1))),
@@ -346,4 +350,109 @@ pub type CertSet = BTreeMap<(u64, CK), BTreeSet<u64>>;
 
 pub fn certset_insert(cs: &mut CertSet, key: (u64, CK, u64)) -> bool {
     cs.entry((key.0, key.1)).or_default().insert(key.2)
+}
+
+/// An `All2All` that records what is broadcast and never receives anything.
+pub struct RecordingAll2All {
+    pub log: std::sync::Mutex<Vec<Vec<u8>>>,
+}
+
+impl alpenglow::All2All for RecordingAll2All {
+    async fn broadcast(&self, msg: &alpenglow::consensus::ConsensusMessage) -> std::io::Result<()> {
+        self.log.lock().unwrap().push(wincode::serialize(msg).expect("ser"));
+        Ok(())
+    }
+    async fn receive(&self) -> std::io::Result<alpenglow::consensus::ConsensusMessage> {
+        std::future::pending().await
+    }
+}
+
+/// C18, forwarding half: a real `Votor` that has seen every event the pool emitted so far (so its
+/// own pruning state is whatever those events make it) is handed the standstill bundle and must
+/// broadcast every certificate and every vote in it.
+///
+/// Returns `Ok(None)` if everything was forwarded, `Ok(Some(what))` naming the first missing item,
+/// `Err(())` if the probe is inconclusive (the Votor task ended or panicked in this artificial wiring,
+/// where its own votes do not loop back into the pool).
+pub fn votor_forwards_bundle(h: &PoolHarness, ev_slot: u64, certs: &[Cert], votes: &[Vote]) -> Result<Option<String>, ()> {
+    use alpenglow::consensus::{ConsensusMessage, Votor};
+    let before: Vec<PoolEvent> = {
+        // everything up to (excluding) the last Standstill event
+        let cut = h.event_log.iter().rposition(|e| matches!(e, PoolEvent::Standstill(..))).unwrap_or(h.event_log.len());
+        h.event_log[..cut].to_vec()
+    };
+    let bundle = PoolEvent::Standstill(Slot::new(ev_slot), certs.to_vec(), votes.to_vec());
+    let own = h.own;
+    let rt = tokio::runtime::Builder::new_current_thread().enable_time().start_paused(true).build().expect("rt");
+    let res = std::panic::catch_unwind(std::panic::AssertUnwindSafe(|| {
+        rt.block_on(async move {
+            let a2a = Arc::new(RecordingAll2All { log: std::sync::Mutex::new(Vec::new()) });
+            let (pool_tx, pool_rx) = mpsc::channel::<PoolEvent>(before.len() + 16);
+            let (_bs_tx, bs_rx) = mpsc::channel(16);
+            let mut votor = Votor::new(ValidatorIndex::new(own as u64), keys::keypair(own).vsk.clone(), pool_rx, bs_rx, a2a.clone());
+            let task = tokio::spawn(async move { votor.voting_loop().await });
+            let max = pool_tx.max_capacity();
+            for e in before {
+                let _ = pool_tx.send(e).await;
+            }
+            // no timer is allowed to fire: only yield, never sleep
+            for _ in 0..10_000 {
+                if pool_tx.capacity() == max {
+                    break;
+                }
+                tokio::task::yield_now().await;
+            }
+            for _ in 0..50 {
+                tokio::task::yield_now().await;
+            }
+            if task.is_finished() {
+                return Err(());
+            }
+            let mark = a2a.log.lock().unwrap().len();
+            let _ = pool_tx.send(bundle).await;
+            for _ in 0..10_000 {
+                if pool_tx.capacity() == max {
+                    break;
+                }
+                tokio::task::yield_now().await;
+            }
+            for _ in 0..50 {
+                tokio::task::yield_now().await;
+            }
+            if task.is_finished() {
+                return Err(());
+            }
+            let sent: Vec<Vec<u8>> = a2a.log.lock().unwrap()[mark..].to_vec();
+            task.abort();
+            Ok(sent)
+        })
+    }));
+    let sent = match res {
+        Ok(Ok(s)) => s,
+        Ok(Err(())) => return Err(()),
+        Err(_) => {
+            let _ = kernel::take_panics();
+            return Err(());
+        }
+    };
+    let mut pool: Vec<Vec<u8>> = sent;
+    for c in certs {
+        let b = wincode::serialize(&ConsensusMessage::Cert(c.clone())).expect("ser");
+        match pool.iter().position(|x| *x == b) {
+            Some(i) => {
+                pool.remove(i);
+            }
+            None => return Ok(Some(format!("certificate {:?} for slot {}", ck_of(c), c.slot()))),
+        }
+    }
+    for v in votes {
+        let b = wincode::serialize(&ConsensusMessage::Vote(v.clone())).expect("ser");
+        match pool.iter().position(|x| *x == b) {
+            Some(i) => {
+                pool.remove(i);
+            }
+            None => return Ok(Some(format!("own vote {:?}", vote_id_of(v)))),
+        }
+    }
+    Ok(None)
 }
